@@ -672,7 +672,7 @@ def opt_as_ref(M, st, fr, t, args, site):
 
 
 # functions whose opaque result may be named by their arguments (pure lookups between mutations)
-PURE = re.compile(r"^context::Context::get_|^<context::CommonContext as context::Context>::get_|^expr::Expr::run$|^device::Device::|"
+PURE = re.compile(r"^context::Context::get_|^<context::CommonContext as context::Context>::get_|^expr::Expr::run(_nested)?$|^device::Device::|^parser::nesting_is_parsable$|"
                   r"^std::collections::HashMap::<K, V, S, A>::get$|^std::collections::BTreeSet::<T, A>::get$|"
                   r"^std::path::Path::|^std::ffi::OsStr::|^core::str::<impl str>::(trim|parse|chars|lines)|^instruction::|directive::GetData>::|^directive::Operand::")
 
@@ -883,3 +883,14 @@ def vec_resize(M, st, fr, t, args, site):
     # not growing: unchanged when equal; truncation when smaller is reported as an event
     out.append(([(grow, False)], ('agg', None, 0, ()), [('resize-no-grow', M.cell_name(a[1]), sx.show(n), site)]))
     return ('fork', out)
+
+
+@pattern(r"^std::result::Result::<T, E>::(ok|err)$")
+def result_ok(M, st, fr, t, args, site):
+    nm = t["callee"]["rpath"].rsplit("::", 1)[-1]
+    views = enum_view(M, st, fr, args[0])
+    rty = M.ret_ty(fr, t)
+    if views is None or rty is None:
+        return NotImplemented
+    keep = 0 if nm == "ok" else 1
+    return ('fork', [(ass, mk_enum(M, fr, rty, 1, [get(0)]) if vix == keep else mk_enum(M, fr, rty, 0, []), []) for ass, vix, get in views])
